@@ -183,7 +183,7 @@ def collab_run(method, two_d, avg, user, dataset, x, z=None, stub=False):
             return out
         return rec
 
-    with Patched(klass, method, make):
+    with Patched(klass, method.lower(), make):
         fitter = klass(x, z) if two_d else klass(x)
         b, p = fitter.collab_pls(dataset, average_dataset=avg, method=method, method_kwargs=user)
     return b, p, calls, results
@@ -196,6 +196,14 @@ def entry_of(data, dataset):
     if same(data, np.mean(dataset, axis=0)):
         return 'Mean'
     return 'Row 999%nat'
+
+
+def case_variant(name, i):
+    """Another spelling of a method name: upper case, capitalised, or alternating."""
+    forms = [name.upper(), name.capitalize(), ''.join(c.upper() if k % 2 else c for k, c in enumerate(name)),
+             name[:-3] + name[-3:].upper()]
+    out = forms[i % len(forms)]
+    return out if out != name else name.upper()
 
 
 def collab_trace(ctx):
@@ -211,7 +219,7 @@ def collab_trace(ctx):
 
     def add(method, two_d, avg, user, stub, tag):
         dataset = data2 if two_d else data1
-        call = {'kind': 'collab-trace', 'method': method, 'two_d': two_d, 'average_dataset': avg,
+        call = {'kind': 'collab-trace', 'method': method, 'two_d': two_d, 'average_dataset': avg, 'name_case': method != method.lower(),
                 'user_keys': list(user), 'stub': stub, 'seed': ctx.seed}
         user_snapshot = list(user.items())
         try:
@@ -293,6 +301,9 @@ def collab_trace(ctx):
                         'weights_as_mask': False, 'max_iter': 4, 'p': 0.1}
                 user = {k: vals[k] for k in keys[:prng.randint(0, len(keys))]}
                 add(method, two_d, avg, user, True, 'probe')
+                # the name in another spelling: same protocol as the lower-case name
+                user = {k: vals[k] for k in keys[:prng.randint(2, len(keys))]}
+                add(case_variant(method, mi + avg), two_d, avg, user, True, 'probe-name-case')
 
     def on_bad(call):
         ctx.fail(f'collab:{call["method"]}:{"2d" if call["two_d"] else "1d"}:forwarded-kwargs',
@@ -308,7 +319,7 @@ def collab_trace(ctx):
               'bool * string * bool * nat * dict val * list (entry * dict val) * list string',
               """Definition ok (c : bool * string * bool * nat * dict val * list (entry * dict val) * list string) : bool :=
   let '(two_d, m, avg, M, user, obs, keys) := c in
-  calls_eqb (collab_calls two_d m avg M user) obs && sl_eqb (collab_param_keys m) keys.""", lits, on_bad)
+  calls_eqb (collab_calls_named two_d m avg M user) obs && sl_eqb (collab_param_keys_named m) keys.""", lits, on_bad)
 
 
 # ------------------------------------------------------------------ B. adaptive_minmax weights
@@ -1640,6 +1651,124 @@ def oracle_interfaces(ctx, budget):
     return count
 
 
+# ------------------------------------------------------------------ oracle 5: the method name in other spellings
+def params_equal(pa, pb):
+    if set(pa) != set(pb):
+        return False
+    for k_ in pa:
+        a, b_ = pa[k_], pb[k_]
+        if isinstance(a, dict):
+            if not params_equal(a, b_):
+                return False
+        elif isinstance(a, (list, tuple)):
+            if len(a) != len(b_) or not all(same(u, v) for u, v in zip(a, b_)):
+                return False
+        elif not same(a, b_):
+            return False
+    return True
+
+
+def oracle_name_case(ctx, budget):
+    from pybaselines import Baseline, Baseline2D
+    rng = np.random.default_rng(ctx.seed + 171)
+    prng = random.Random(ctx.seed + 171)
+    special = ('aspls', 'pspline_aspls', 'brpls', 'pspline_brpls', 'fabc', 'mpls', 'pspline_mpls')
+    count = 0
+    with warnings.catch_warnings():
+        warnings.simplefilter('ignore')
+        for two_d, names, kwtab in ((False, COLLAB_1D, M.KW_1D), (True, COLLAB_2D, M.KW_2D)):
+            for mi, method in enumerate(names):
+                if budget == 1 and method not in special and (mi + ctx.seed) % 2:
+                    continue
+                if two_d:
+                    x, z, y = M.make_z2d(rng, 11, 12)
+                    data = np.array([y, y * 1.3 + 1])
+                    mk = lambda: Baseline2D(x, z)   # noqa
+                else:
+                    n = 43
+                    x = M.make_x(prng, n, 'random')
+                    y = M.make_y(rng, x)
+                    if mi % 2:
+                        perm = rng.permutation(n)
+                        x, y = x[perm], y[perm]
+                    data = np.vstack([y, y * 1.3 + 1, y[::-1] * 0.9])
+                    mk = lambda: Baseline(x)   # noqa
+                kw = dict(kwtab[method])
+                if method not in NO_LOOP:
+                    kw.update(tol=1e-3, max_iter=4)
+                avg = bool((mi + ctx.seed) % 2)
+                ref_b, ref_p = mk().collab_pls(data, average_dataset=avg, method=method, method_kwargs=dict(kw))
+                for vi in range(2 if method in special else 1):
+                    name = case_variant(method, mi + vi + ctx.seed)
+                    call = {'kind': 'oracle5-collab', 'method': name, 'two_d': two_d, 'average_dataset': avg, 'seed': ctx.seed}
+                    key = f'collab:{method}:{"2d" if two_d else "1d"}:name-case'
+                    what = f'{"Baseline2D" if two_d else "Baseline"}.collab_pls(method={name!r}, average_dataset={avg})'
+                    try:
+                        b, p = mk().collab_pls(data, average_dataset=avg, method=name, method_kwargs=dict(kw))
+                    except Exception as exc:  # noqa
+                        ctx.fail(key + ':raises', f'{what} raised {type(exc).__name__}: {exc} while method={method!r} runs', call)
+                        continue
+                    count += 1
+                    ctx.case(('oracle5-collab', name, two_d, avg), nontrivial=True, kind='oracle5:collab-name-case')
+                    if ('average_alpha' in p) != (method in ('aspls', 'pspline_aspls')):
+                        ctx.fail(key + ':average-alpha-key', f'{what}: params {"has" if "average_alpha" in p else "lacks"} "average_alpha" '
+                                 f'(keys {sorted(p)}); it must be present exactly for the aspls family, whatever the spelling', call)
+                    if not (same(b, ref_b) and params_equal(p, ref_p)):
+                        ctx.fail(key + ':differs-from-lower-case', f'{what} differs from the call with method={method!r} '
+                                 f'(max abs diff {np.abs(b - ref_b).max():.3g}): the spelling of the name changes the composition', call)
+        # ---- the other optimizers' method argument
+        n = 47
+        x = M.make_x(prng, n, 'random')
+        y = M.make_y(rng, x)
+        perm = rng.permutation(n)
+        xu, yu = x[perm], y[perm]
+        others = [('adaptive_minmax', 'modpoly', dict(poly_order=2, method_kwargs={'max_iter': 20})),
+                  ('adaptive_minmax', 'imodpoly', dict(poly_order=(1, 3))),
+                  ('custom_bc', 'asls', dict(method_kwargs={'lam': 1e3})), ('custom_bc', 'modpoly', dict(regions=((5, 30),), sampling=3)),
+                  ('custom_bc', 'pspline_arpls', dict(method_kwargs={'num_knots': 8, 'lam': 10})),
+                  ('optimize_extended_range', 'asls', dict(min_value=2, max_value=4)),
+                  ('optimize_extended_range', 'modpoly', dict(min_value=1, max_value=3)),
+                  ('optimize_extended_range', 'dietrich', dict(min_value=1, max_value=3, method_kwargs={'smooth_half_window': 2})),
+                  ('optimize_extended_range', 'cwt_br', dict(min_value=1, max_value=2, method_kwargs={'scales': [2, 3, 4]})),
+                  ('optimize_extended_range', 'pspline_asls', dict(min_value=0, max_value=2, method_kwargs={'num_knots': 8}))]
+        for k, (optname, method, args) in enumerate(others):
+            xx, yy = (xu, yu) if k % 2 else (x, y)
+            copyargs = lambda: {k_: (dict(v) if isinstance(v, dict) else v) for k_, v in args.items()}   # noqa
+            try:
+                rb, rp = getattr(Baseline(xx), optname)(yy, method=method, **copyargs())
+            except Exception:  # noqa
+                continue
+            name = case_variant(method, k + ctx.seed)
+            call = {'kind': 'oracle5-other', 'optimizer': optname, 'method': name, 'unsorted': bool(k % 2), 'seed': ctx.seed}
+            key = f'{optname}:{method}:name-case'
+            try:
+                b, p = getattr(Baseline(xx), optname)(yy, method=name, **copyargs())
+            except Exception as exc:  # noqa
+                ctx.fail(key + ':raises', f'{optname}(method={name!r}) raised {type(exc).__name__}: {exc} while method={method!r} runs', call)
+                continue
+            count += 1
+            ctx.case(('oracle5-other', optname, name), nontrivial=True, kind='oracle5:other-name-case')
+            if not (same(b, rb) and params_equal(p, rp)):
+                ctx.fail(key + ':differs-from-lower-case', f'{optname}(method={name!r}) differs from the call with method={method!r} '
+                         f'(max abs diff {np.abs(b - rb).max():.3g})', call)
+        x2, z2, y2 = M.make_z2d(rng, 10, 11)
+        for k, method in enumerate(['modpoly', 'imodpoly']):
+            name = case_variant(method, k + ctx.seed)
+            rb, rp = Baseline2D(x2, z2).adaptive_minmax(y2, poly_order=1, method=method)
+            call = {'kind': 'oracle5-other', 'optimizer': 'adaptive_minmax-2d', 'method': name, 'seed': ctx.seed}
+            try:
+                b, p = Baseline2D(x2, z2).adaptive_minmax(y2, poly_order=1, method=name)
+            except Exception as exc:  # noqa
+                ctx.fail(f'adaptive_minmax2d:{method}:name-case:raises', f'Baseline2D.adaptive_minmax(method={name!r}) raised {exc}', call)
+                continue
+            count += 1
+            ctx.case(('oracle5-other2d', name), nontrivial=True, kind='oracle5:other-name-case')
+            if not (same(b, rb) and params_equal(p, rp)):
+                ctx.fail(f'adaptive_minmax2d:{method}:name-case:differs-from-lower-case',
+                         f'Baseline2D.adaptive_minmax(method={name!r}) differs from method={method!r}', call)
+    return count
+
+
 def run(ctx):
     ctx.rule = ('collab trace: every accepted wrapped method (1-D 28, 2-D 20) x average_dataset x {real method with valid keys incl. '
                 'tol/max_iter/weights/alpha/tol_2/weights_as_mask, probe with a random key subset in random order}; '
@@ -1670,11 +1799,16 @@ def run(ctx):
     n += oracle_variants(ctx, budget)
     n += oracle_growth(ctx, budget)
     n += oracle_interfaces(ctx, budget)
+    n += oracle_name_case(ctx, budget)
     ctx.note(f'direct oracle: {n} recomposition comparisons on real methods, bit-exact (budget x{budget})')
     ctx.note('oracle 2: recomposition identities with non-default wrapped-method parameters per family (mask_initial_peaks, '
              'use_original, cost functions, threshold, diff_order, spline_degree, ...), sorted / unsorted x, with / without user weights; '
              'at the wrapped-call boundary every sub-call\'s array arguments are snapshotted on entry, must be unchanged on return, '
              'bit-identical across the four fits / step-2 calls / sweep and to the reported arrays; recomputation uses pristine copies')
+    ctx.note('name case: collab_pls call-trace validation also with the method name in upper / capitalised / alternating case (the model '
+             'lower-cases the name as given); oracle 5: every accepted collab_pls method (1-D, 2-D) and the other optimizers\' method '
+             'argument in another spelling must give bit-identical output and params to the lower-case call, average_alpha present '
+             'exactly for the aspls family')
     ctx.note('oracle 4: every recomposition identity also through the functional interface (pybaselines.optimizers.<name>(..., x_data=x)) and '
              'through optimizers._Optimizers(x) / two_d.optimizers._Optimizers(x, z) objects (which build a helper fitter in _get_function) on '
              'x / z permuted by NON-involutive permutations (rotation, two appended scans, random), compared with Baseline / Baseline2D '
@@ -1696,7 +1830,9 @@ def replay(rep):
     print('replay case:', case)
     ctx = Ctx(PROP, 'quick', case.get('seed', 0))
     kind = case.get('kind', '')
-    if kind.startswith('oracle4'):
+    if kind.startswith('oracle5'):
+        oracle_name_case(ctx, 3)
+    elif kind.startswith('oracle4'):
         oracle_interfaces(ctx, 3)
     elif kind.startswith('oracle3'):
         oracle_growth(ctx, 3)
